@@ -78,6 +78,17 @@ async def send_case(ctx, case: dict) -> None:
         transport.take_writes()
     fields = tuple(case["fields"])
     line = ";".join(str(f) for f in fields) + "\n"
+    # what the destination last reported for this (child, type) is no reason to drop a command: a third of the set
+    # commands go to a child that already holds exactly this payload, a third to one that holds another (round 15)
+    stored_mode = sum(map(ord, line)) % 3
+    dest_node = gateway.nodes.get(fields[0]) if isinstance(fields[0], int) else None
+    if fields[2] == 1 and dest_node is not None and fields[1] in dest_node.children and isinstance(fields[4], int):
+        if stored_mode == 1:
+            dest_node.children[fields[1]].values[fields[4]] = str(fields[5])
+            ctx.obs("dest-child-already-holds-sent-value")
+        elif stored_mode == 2:
+            dest_node.children[fields[1]].values[fields[4]] = "previous"
+            ctx.obs("dest-child-holds-other-value")
     kwargs = {} if case["buffered"] is None else {"message_buffer": case["buffered"]}
     kind, exc = await stepper.tx(Message(*fields), **kwargs)
     writes = transport.take_writes()
